@@ -191,7 +191,9 @@ func RandNet4(r *hlib.SplitMix64, kmin, kmax int, aligned bool) (uint32, int) {
 	return a, k
 }
 
-func Dotted(a uint32) string { return fmt.Sprintf("%d.%d.%d.%d", a>>24, (a>>16)&255, (a>>8)&255, a&255) }
+func Dotted(a uint32) string {
+	return fmt.Sprintf("%d.%d.%d.%d", a>>24, (a>>16)&255, (a>>8)&255, a&255)
+}
 
 // ---------------------------------------------------------------- port ranges
 
